@@ -41,3 +41,14 @@ Theorem C13_min_exact : forall (F : Type) (O : Ops F) (P : F -> Prop) (p mi ci :
   forall k, (k < length xs)%nat ->
     least_in O (lastn (N.to_nat p) (firstn (S k) xs)) (nth k (min_outs O (mkMin p mi ci (repeat (inf O) (N.to_nat p))) xs) (inf O)).
 Proof. intros F O P p mi ci xs OR H1 H2 H3 H4 HP. exact (proj2 (min_least O P OR p mi ci xs H1 H2 H3 H4 HP)). Qed.
+
+From Coq Require Import List Floats.
+From TA Require Import Generic FloatInst XQ Run2 Par.Hom Par.Var Par.Oracle.
+(* the T2 oracle (exact rational run, evaluated by the checks) is the image of the exact real run these
+   theorems are about; SD/BB through the variance model (sqrt := identity, Par/Var.v) *)
+Theorem C13_t2_oracle_variance : forall fops : list (@op float),
+  snd (run XRvOps [] (map (map_op f2xr) fops)) = map (map_obs q2x) (snd (run XQOps [] (map qop fops))).
+Proof. exact t2_oracle_variance. Qed.
+Theorem C13_t2_oracle : forall fops : list (@op float), forallb no_sqrt_kind fops = true ->
+  snd (run XROps [] (map (map_op f2xr) fops)) = map (map_obs q2x) (snd (run XQOps [] (map qop fops))).
+Proof. exact t2_oracle. Qed.
